@@ -66,13 +66,17 @@ func NewWithOptions(opts *Options) *OrefaFS {
 		curDir = volumeName + string(vfs.PathSeparator())
 	}
 
-	vfs.nodes = make(nodes)
-	vfs.nodes[volumeName] = &node{
+	rootNode := &node{
 		mode:  fs.ModeDir | 0o755,
 		mtime: time.Now().UnixNano(),
 		uid:   0,
 		gid:   0,
 	}
+
+	// The root directory is the parent of "/name" (key "") and is itself named "/" by Abs.
+	vfs.nodes = make(nodes)
+	vfs.nodes[volumeName] = rootNode
+	vfs.nodes[volumeName+string(vfs.PathSeparator())] = rootNode
 
 	_ = vfs.SetCurDir(curDir)
 
